@@ -90,6 +90,16 @@ ASSUMPTIONS = [
     "(B) chunking: the byte stream is cut at two solver-chosen positions (three reads) or delivered in reads of a "
     "solver-chosen buffer_size; time-outs fire on DetLoop's virtual clock only when nothing else is ready; the late "
     "answer of a timed-out command arrives either before the next command is written or right after",
+    "(B) sequences run through the real BaseConnector.run / get_shell / utils.run_in_shell over a connector whose _create_shell "
+    "returns the real SubprocessShell on a stub process; the fallback utils.run_in_subprocess is replaced by the reference "
+    "'fresh process' (returns (output.strip(), code), raises asyncio.TimeoutError for a command that outlives the time-out). "
+    "A stub sh that is busy does not react to `exit` (SubprocessShell._close then waits its 5 s on the virtual clock and kills it)",
+    "(B) BaseShell's incremental UTF-8 decoder object is replaced, after construction, by the same C decoder created outside "
+    "CrossHair's tracer (CrossHair substitutes a pure-Python model of the codec registry inside traced code); all bytes are concrete",
+    "the reference reader sh_read (the oracle, not code under test) runs outside CrossHair's tracer when its input is a plain str, "
+    "which is always the case: every path carries concrete text",
+    "(A4) 'the command does not run when cd fails' is part of the claim because the fresh-process rendering (create_command) chains "
+    "with && while the persistent-shell rendering is expected to be observationally equivalent; checked on plain strings only",
     "(B) 'equivalent to a fresh process' is read as: (output.strip(), exit code) of the command itself — the contract "
     "of run_in_subprocess — or WorkflowExecutionException for the command that timed out; commands do not read the "
     "shell's standard input and are not killed by signals; 1 MiB outputs and invalid UTF-8 (replaced by design) are "
@@ -406,8 +416,7 @@ WD_PREFIX = "/w/"
 
 
 def _render_env(renderer: str, value: str) -> tuple:
-    """-> (text handed to sh, expected reading, allowed separators, how to run natively)."""
-
+    """-> (text handed to sh, expected reading [(words, redirections)], allowed separators)."""
     env = {"K": value, "L": "z"}
     exp = [(["export", "K=" + value], []), (["export", "L=z"], [])]
     if renderer == "create":
@@ -481,7 +490,6 @@ def prop_env(renderer: str, alpha: list, n, i0=0, i1=0, i2=0, i3=0) -> bool:
 
 
 def _render_wd(renderer: str, workdir: str, cmd: list):
-
     if renderer == "create":
         text = create_command("C", list(cmd), None, workdir)
         return text, [(["cd", workdir], []), (list(cmd), [("2>&", "1")])], ("&&",)
@@ -1473,12 +1481,13 @@ def _specs_B(quick: bool) -> list:
             name="seq3_timeouts",
             group=G_SEQS,
             source=mk_source(
-                IMPORTS, "s0: int, s1: int, cap0: bool, cap1: bool, cap2: bool" + ("" if quick else ", o2: int"),
-                ["0 <= s0 <= 2", "0 <= s1 <= 2"] + ([] if quick else [f"0 <= o2 <= {no}"]),
-                "prop_sequence_confirmed([7, 1, " + ("2" if quick else "o2") + "], [1, 2, 3], [s0, s1, 0], [cap0, cap1, cap2])",
+                IMPORTS, "s0: int, s1: int, cap0: bool, cap1: bool, cap2: bool" + ("" if quick else ", j2: int"),
+                ["0 <= s0 <= 2", "0 <= s1 <= 2"] + ([] if quick else ["0 <= j2 <= 2"]),
+                "prop_sequence_confirmed([7, 1, " + ("2" if quick else "[2, 5, 6][j2]") + "], [1, 2, 3], [s0, s1, 0], [cap0, cap1, cap2])",
             ),
             cond=cond, path=60,
-            bound="three commands through BaseConnector.run; each of the first two answers in time / late before the next command / late after the next command (all 9 combinations); capture flags symbolic; distinct outputs and exit codes 1, 2, 3",
+            bound="three commands through BaseConnector.run; each of the first two answers in time / late before the next command / late after the next command (all 9 combinations); capture flags symbolic; distinct outputs and exit codes 1, 2, 3"
+            + ("" if quick else "; the last output is one of 'x\\n', a frame-like line of another command, multi-byte text"),
             symbolic="2 arrival times, 3 capture flags" + ("" if quick else ", last output"),
             targets=T,
             finding_key=_key_sequence(3),
